@@ -994,3 +994,94 @@ func ruleUnwrapNil(c *Ctx) {
 	c.count("unwrapped_cause_uses", n)
 	c.floor("uses of an unwrapped cause", n, 1)
 }
+
+
+// ruleUseBeforeErrCheck: a pointer returned together with an error must not be dereferenced before
+// the error has been tested (url.Parse, json decoders, … return nil with the error).
+func ruleUseBeforeErrCheck(c *Ctx) {
+	n := 0
+	pkgs := append([]string{pkgCoroutines, pkgSubApi, pkgHttp, pkgGrpc, pkgUtil}, workerPkgs...)
+	for _, pp := range pkgs {
+		pk := c.P.Pkg(pp)
+		if pk == nil {
+			continue
+		}
+		info := pk.TypesInfo
+		for _, fd := range allFuncDecls(pk) {
+			if isTestFile(c.P, fd.Pos()) {
+				continue
+			}
+			occ := map[string]int{}
+			ast.Inspect(fd.Body, func(nd ast.Node) bool {
+				as, ok := nd.(*ast.AssignStmt)
+				if !ok || len(as.Lhs) != 2 || len(as.Rhs) != 1 {
+					return true
+				}
+				if _, isCall := ast.Unparen(as.Rhs[0]).(*ast.CallExpr); !isCall {
+					return true
+				}
+				pid, ok1 := as.Lhs[0].(*ast.Ident)
+				eid, ok2 := as.Lhs[1].(*ast.Ident)
+				if !ok1 || !ok2 || pid.Name == "_" || eid.Name == "_" {
+					return true
+				}
+				pobj := info.Defs[pid]
+				if pobj == nil {
+					pobj = info.Uses[pid]
+				}
+				eobj := info.Defs[eid]
+				if eobj == nil {
+					eobj = info.Uses[eid]
+				}
+				if pobj == nil || eobj == nil || !isErrorType(eobj.Type()) {
+					return true
+				}
+				if _, isPtr := pobj.Type().Underlying().(*types.Pointer); !isPtr {
+					return true
+				}
+				// the callee is outside the module (library contract: nil result with the error)
+				if fn, ok := calleeOf(info, ast.Unparen(as.Rhs[0]).(*ast.CallExpr)).(*types.Func); !ok || fn.Pkg() == nil || strings.HasPrefix(fn.Pkg().Path(), modPath) || fn.Pkg().Path() == pkgGocoro {
+					return true
+				}
+				n++
+				// first dereference and first error test after the assignment, in evaluation order
+				var firstUse, firstTest token.Pos
+				ast.Inspect(fd.Body, func(x ast.Node) bool {
+					if x == nil || x.Pos() <= as.End() {
+						return true
+					}
+					switch y := x.(type) {
+					case *ast.SelectorExpr:
+						if isObj(info, y.X, pobj) && !firstUse.IsValid() {
+							firstUse = y.Pos()
+						}
+					case *ast.StarExpr:
+						if isObj(info, y.X, pobj) && !firstUse.IsValid() {
+							firstUse = y.Pos()
+						}
+					case *ast.BinaryExpr:
+						if (y.Op == token.NEQ || y.Op == token.EQL) && isObj(info, y.X, eobj) && exprString(y.Y) == "nil" && !firstTest.IsValid() {
+							firstTest = y.Pos()
+						}
+					case *ast.AssignStmt:
+						// re-assignment of the error variable ends the window
+						for _, l := range y.Lhs {
+							if isObj(info, l, eobj) && !firstTest.IsValid() {
+								firstTest = y.Pos()
+							}
+						}
+					}
+					return true
+				})
+				cn := calleeName(info, ast.Unparen(as.Rhs[0]).(*ast.CallExpr))
+				occ[cn]++
+				key := fmt.Sprintf("use-before-err/%s.%s/%s#%d", pk.Name, funcName(fd), cn, occ[cn])
+				bad := firstUse.IsValid() && (!firstTest.IsValid() || firstUse < firstTest)
+				c.check(!bad, key, as.Pos(), "the error of "+cn+" is tested before its result is dereferenced", pid.Name+" (returned by "+cn+" together with an error) is dereferenced at "+c.P.pos(firstUse)+" before the error is tested: on the error path it is nil and the goroutine panics on client-controlled input")
+				return true
+			})
+		}
+	}
+	c.count("pointer_and_error_results", n)
+	c.floor("library calls returning (pointer, error)", n, 3)
+}
